@@ -1527,6 +1527,12 @@ impl<F: Send + 'static> Sampler<F> {
         let result = self.main_thread.join();
         match result {
             Err(payload) => std::panic::resume_unwind(payload),
+            Ok(Ok((None, trace))) => {
+                // All chains are done now. If one of them failed, its error is still
+                // waiting in the results channel: report it together with the trace.
+                let chain_error = self.results.try_iter().find_map(|res| res.err());
+                Ok((chain_error, trace))
+            }
             Ok(Ok(val)) => Ok(val),
             Ok(Err(err)) => Err(err),
         }
